@@ -367,9 +367,14 @@ class Inotify:
                                     self._path_for_wd[moved_wd] = _move_to_path
                     elif self.is_recursive and inotify_event.is_directory:
                         # The directory arrived from outside the watched tree, or was renamed before
-                        # its creation was processed: nothing watches it yet.
+                        # its creation was processed: nothing watches it yet. Entries may vanish while
+                        # the tree is walked: skip them, keep watching the rest.
                         with contextlib.suppress(OSError):
-                            self._add_dir_watch(inotify_event.src_path, self._event_mask, recursive=True)
+                            self._add_watch(inotify_event.src_path, self._event_mask)
+                            for root, dirnames, _ in os.walk(inotify_event.src_path):
+                                for dirname in dirnames:
+                                    with contextlib.suppress(OSError):
+                                        self._add_watch(os.path.join(root, dirname), self._event_mask)
                     src_path = os.path.join(wd_path, name)
                     inotify_event = InotifyEvent(wd, mask, cookie, name, src_path)
 
